@@ -751,3 +751,236 @@ def message_level(run, rng, dist):
                 if c is not None:
                     cases.append(c)
     return cases, stats
+
+
+# ------------------------------------------------------------------------------------------
+# model side, message level: the tree is rebuilt in Coq from the nesting the implementation's
+# parser produced (Model/Validate.v: build_message) and validated by the model
+
+MSG_PART = '''Definition msg_case := (option str * list shape * nat * list str * nat)%type.
+Definition built (c : msg_case) : result message :=
+  match c with (name, kids, _, _, _) => build_message t TOLERANT e lenc name kids end.
+Definition msg_agrees (c : msg_case) : bool :=
+  match c with (name, kids, code, keys, nw) =>
+    same (match built c with
+          | Err x => ((100 + exn_code x)%nat, [], 0%nat)
+          | Ok m => obs_log (validate_message_log t TOLERANT e m)
+          end) code keys nw end.
+Definition msg_linked (c : msg_case) : bool :=
+  match built c with Ok m => linked_message t TOLERANT e m | Err _ => true end.
+'''
+
+
+def shape_term(shape, lines_iter):
+    out = []
+    for n in shape:
+        if n[0] == 'S':
+            line = next(lines_iter)
+            if line[:3].upper() != n[1][:3].upper():
+                raise ValueError('segment order differs')
+            out.append('ShSeg %s' % coq_str(line))
+        else:
+            out.append('ShGrp %s %s' % (coq_str(n[1]), shape_term(n[2], lines_iter)))
+    return '[' + '; '.join(out) + ']'
+
+
+def run_message_model(run, cases, per_file=12, check_linked=True):
+    byv = {}
+    skipped = 0
+    for c in cases:
+        try:
+            if not all(is_model_str(x) for x in c['lines'] + c['keys']):
+                raise ValueError('outside the model alphabet')
+            it = iter(c['lines'])
+            c['term'] = shape_term(c['shape'], it)
+            if next(it, None) is not None:
+                raise ValueError('segment count differs')
+        except (ValueError, StopIteration):
+            skipped += 1
+            continue
+        byv.setdefault(c['v'], []).append(c)
+    files, index = [], []
+    for v in sorted(byv):
+        for k, sh in enumerate(shard(byv[v], per_file)):
+            rows = ['(%s, %s, %d%%nat, %s, %d%%nat)' % ('None' if c['name'] is None else '(Some %s)' % coq_str(c['name']),
+                                                        c['term'], c['code'], coq_strs(c['keys']), c['nlen']) for c in sh]
+            L = [prelude(v, S.default_ec(v)), MSG_PART, 'Definition cases : list msg_case := [\n' + ';\n'.join(rows) + '\n].',
+                 'Eval vm_compute in failing 0 (map msg_agrees cases).']
+            if check_linked:
+                L.append('Eval vm_compute in failing 0 (map msg_linked cases).')
+            files.append(('c04m_%d_%s_%d' % (os.getpid(), v.replace('.', '_'), k), '\n'.join(L) + '\n'))
+            index.append(sh)
+    results = coq_eval_many(files, timeout=1500)
+    evaluated = unlinked = 0
+    for sh, (rc, out) in zip(index, results):
+        lists = parse_nat_lists(out)
+        if rc != 0 or len(lists) != (2 if check_linked else 1):
+            run.disagree('message-validator', why='case file did not evaluate', output=out[-1500:])
+            continue
+        evaluated += len(sh)
+        for i in lists[0]:
+            c = sh[i]
+            run.disagree('message-validator', version=c['v'], structure=c['structure'], mutation=c['label'],
+                         text='\r'.join(c['lines']),
+                         implementation={'code': c['code'], 'errors': c['keys'], 'length_warnings': c['nlen']})
+        if check_linked:
+            unlinked += len(lists[1])
+    return evaluated, unlinked, skipped
+
+
+# ------------------------------------------------------------------------------------------
+# message profile as the validation reference (implementation-side oracle)
+
+
+def profile_level(run, rng, dist):
+    """the RSP_K21 profile shipped with hl7apy's tests: a conforming instance built from the profile
+    validates against it, single-point mutations are reported"""
+    path = os.path.join(os.environ.get('HL7APY_REPO', '/repo'), 'tests', 'profiles', 'iti_21')
+    if not os.path.exists(path):
+        return 0
+    mp = hl7apy.load_message_profile(path)
+    n = 0
+    for mname, ref in sorted(mp.items()):
+        if not structure_ok(ref):
+            continue
+        v = '2.5'
+        lib = hl7apy.load_library(v)
+        for label, lines, expect, nodes in message_variants(rng, lib, v, mname, ref, True):
+            if label == 'unknown-message-type':
+                continue        # MessageProfileNotFound is raised by the parser: not a validation matter
+            if label == 'insert-foreign-segment':
+                # the profile is the reference of the message only; the foreign segment is found in the tables
+                pass
+            message_case(run, v, mname, label, lines, expect, ref, nodes, profile=mp, profile_name='iti_21')
+            dist['profile:' + label] = dist.get('profile:' + label, 0) + 1
+            n += 1
+        # field level inside the profile: required field / component removed, length warning is a warning only
+        for row in ref[1]:
+            if row[3] != 'SEG' or row[0] == 'MSH' or row[2][0] < 1:
+                continue
+            req = [f for f in row[1][1] if f[2][0] >= 1 and f[2][1] != 0]
+            if not req:
+                continue
+            f = rng.choice(req)
+            nodes = instance(ref, 'req', lib)
+            lines = lines_of(nodes, mname, v)
+            k = [x[1] for x in flat(nodes)].index(row[0])
+            lines[k] = fill_segment(row[0], row[1], {field_index(f[0]): ''}, always_first=False)
+            message_case(run, v, mname, 'profile-drop-required-field', lines,
+                         ('missing-required-not-reported', 'Missing|%s|%s' % (row[0], f[0]), None), ref, None,
+                         profile=mp, profile_name='iti_21')
+            dist['profile:drop-required-field'] = dist.get('profile:drop-required-field', 0) + 1
+            n += 1
+    return n
+
+
+# ------------------------------------------------------------------------------------------
+
+
+def main(argv=None):
+    run = Run('C04', argv)
+    if run.replay:
+        return replay(run)
+    targets, obl = [], []
+    if os.path.exists(os.path.join(COQ, 'Properties', 'C04.v')):
+        targets.append('Properties/C04.vo')
+        obl.append('Properties/C04.v')
+    else:
+        targets.append('Model/Validate.vo')
+    ok = run.build(targets, gen=('params', 'tables'), obligation_files=obl or None)
+    if ok and obl:
+        run.print_assumptions('Properties.C04', [n for n, _ in theorems_of('Properties/C04.v')])
+    rng = run.rng
+    dist = {}
+    seg_cases = segment_level(run, rng, dist)
+    run.log('segment level: %d cases, %d oracle failures' % (len(seg_cases), len(run.failures)))
+    msg_cases, stats = message_level(run, rng, dist)
+    run.log('message level: %d cases (%s), %d oracle failures' % (len(msg_cases), stats, len(run.failures)))
+    n_profile = profile_level(run, rng, dist)
+    run.log('profile level: %d cases, %d oracle failures' % (n_profile, len(run.failures)))
+    # ---- correspondence
+    seg_model = seg_cases
+    if run.thorough and len(seg_model) > 9000:
+        seg_model = rng.sample(seg_model, 9000)
+    ev_s, unlinked_s = run_segment_model(run, seg_model, check_linked=True)
+    run.log('model evaluated %d segment cases, %d disagreements, %d outside the theorem domain'
+            % (ev_s, len(run.disagreements), unlinked_s))
+    per_label = {}
+    msg_model = []
+    cap = 2 if not run.thorough else 12
+    order = list(msg_cases)
+    rng.shuffle(order)
+    for c in order:
+        key = (c['v'], c['label'])
+        if per_label.get(key, 0) < cap and len(c['lines']) <= 14:
+            per_label[key] = per_label.get(key, 0) + 1
+            msg_model.append(c)
+    ev_m, unlinked_m, skipped_m = run_message_model(run, msg_model)
+    run.log('model evaluated %d message cases (%d skipped), %d disagreements, %d outside the theorem domain'
+            % (ev_m, skipped_m, len(run.disagreements), unlinked_m))
+    nontrivial = len({(c['v'], c['text'][:3], c['label']) for c in seg_cases if c['label'] != 'conforming-required'}) + \
+        len({(c['v'], c['structure'], c['label']) for c in msg_cases if c['label'] != 'conforming-required'})
+    samples = [{'level': 'segment', 'version': c['v'], 'text': c['text'][:160], 'mutation': c['label'], 'code': c['code'],
+                'errors': c['keys'][:4]} for c in seg_cases[:: max(1, len(seg_cases) // 4)][:4]] + \
+              [{'level': 'message', 'version': c['v'], 'structure': c['structure'], 'mutation': c['label'],
+                'text': ' // '.join(c['lines'])[:300], 'errors': c['keys'][:4]}
+               for c in msg_cases[:: max(1, len(msg_cases) // 4)][:4]]
+    run.finish({
+        'evaluations': len(seg_cases) + len(msg_cases) + n_profile,
+        'distinct_nontrivial': nontrivial,
+        'rule': 'segment level: for %s segments of every version a conforming line with the required fields, one with '
+                'every field, and single-point mutations (required field dropped, single field repeated, field beyond '
+                'the table, component beyond the datatype, required component dropped, components in a base field), '
+                'plus messy lines and Z-segments for the model; message level: for %s message structures of every '
+                'version that can be addressed from MSH-9 the required-only and all-children instances (+ a Z-segment) '
+                'and single-point mutations (required segment removed at top level / inside a group, single segment '
+                'duplicated, foreign segment inserted, unknown message type), parsed with find_groups=True; the same '
+                'families against the iti_21 message profile; every element also goes through the purity and '
+                'wrapper clauses; non-trivial/distinct = distinct (version, segment or structure, mutation) other '
+                'than the required-only conforming instance'
+                % ('all' if run.thorough else '20 seed-chosen', 'all' if run.thorough else '14 seed-chosen'),
+        'samples': samples,
+        'traces_validated_against_impl': ev_s + ev_m,
+        'input_distribution': dist,
+        'structures': stats,
+        'model_cases': {'segments': ev_s, 'messages': ev_m, 'messages_skipped': skipped_m},
+        'trees_outside_theorem_domain': {'segments': unlinked_s, 'messages': unlinked_m,
+                                         'note': 'linked_seg / linked_message false: the conformance theorem does not '
+                                                 'speak about these trees (e.g. a structure that declares a name twice); '
+                                                 'the correspondence still compares them'},
+    }, assumptions=[
+        'model fidelity claimed for ASCII text, TOLERANT level, standard tables; table-compliance warnings are not '
+        'modelled (value tables are not generated) and length warnings are compared as a count',
+        'message trees are rebuilt in Coq from the nesting produced by hl7apy\'s parser (the group search is C08\'s subject)',
+        'message profiles: implementation-side oracle only',
+    ])
+
+
+def replay(run):
+    import json
+    r = json.load(open(run.replay))
+    inp = r.get('input', {})
+    v, text, expect = inp.get('version'), inp.get('text'), tuple(inp.get('expect') or ())
+    if v and text and expect:
+        if inp.get('level') == 'segment':
+            c = seg_case(text, v)
+            judge(run, c, expect, dict(inp))
+            if c['obj'] is not None:
+                check_purity_and_wrapper(run, c['obj'], default_ec(v), dict(inp))
+        else:
+            lib = hl7apy.load_library(v)
+            ref = lib.MESSAGES.get(inp.get('structure'))
+            where = {k: inp[k] for k in inp if k not in ('code', 'errors', 'expected_error', 'exc')}
+            try:
+                msg = parse_message(text, validation_level=TOL, find_groups=True)
+                code, keys, nlen, rep = check_purity_and_wrapper(run, msg, S.default_ec(v), where)
+                judge(run, {'code': code, 'keys': keys}, expect, where)
+            except Exception as ex:  # noqa
+                run.fail('conforming-rejected', 'the message does not parse', exc=repr(ex), **where)
+    for f in run.failures:
+        print('replayed failure:', f['kind'], {k: f['data'][k] for k in f['data'] if k in ('errors', 'expected_error', 'code')})
+    run.finish({'evaluations': 1, 'distinct_nontrivial': 2, 'rule': 'replay of one stored case', 'samples': [inp]})
+
+
+if __name__ == '__main__':
+    main()
